@@ -15,6 +15,7 @@ from cayleypy.puzzles.hungarian_rings import get_group  # noqa: E402
 
 # theorems `regenerated globe.py = specification` (CvProps/C16g.lean; translator harness/extract/pylean.py)
 GEN_THEOREMS = []
+GEN_THEOREMS_RINGS = []
 
 THEOREMS = [
     "Cv.C16.fromCycles_toCycles",
@@ -397,7 +398,9 @@ def main():
     if not ck.replay:
         from cv.pygen_corr import gen_tie  # noqa: E402
 
-        gen_tie(ck, "C16g", GEN_THEOREMS, ("globe",))
+        if GEN_THEOREMS_RINGS and os.path.exists(os.path.join(VERIF, "lean", "CvProps", "C16r.lean")):
+            ck.gen_obligations("CvProps.C16r", GEN_THEOREMS_RINGS, "translated source")
+        gen_tie(ck, "C16g", GEN_THEOREMS, ("globe", "rings"))
     if ck.replay:
         body = json.load(open(os.path.join(VERIF, ck.replay) if not os.path.isabs(ck.replay) else ck.replay))
         c = body["case"]
